@@ -27,4 +27,55 @@ let run line =
       (string_of_z s.Breaker.fail) (string_of_z s.Breaker.last) spec_agrees
   | _ -> failwith "c20: bad line"
 
-let () = register "main" run
+(* concurrent scripts, run through the LTS [Breaker.cstep].
+   input: "S threshold recover mock" then tokens:  s <o> <now> | r <thread index> <now> | p <o> <now>
+   output: one token per step: start -> F (forwarded, now held) / B / M ; release -> outcome letter (or - if it
+   had been rejected) ; probe -> B / M / outcome letter *)
+let run_script toks =
+  match toks with
+  | th :: rc :: mk :: rest ->
+    let c = { Breaker.threshold = z_of_string th; recover = z_of_string rc; has_mock = (mk = "1") } in
+    let cs = ref { Breaker.shared = Breaker.init; threads = [] } in
+    let nthreads = ref 0 in
+    let rej () = if c.Breaker.has_mock then "M" else "B" in
+    let pc_of i = (Stdlib.List.nth (!cs).Breaker.threads i).Breaker.tpc in
+    let step i now = match Breaker.cstep c !cs (nat_of_int i) now with
+      | Some cs' -> cs := cs' | None -> failwith "disabled step" in
+    let rec to_hold i now = match pc_of i with
+      | Breaker.PCallNext | Breaker.PDone _ -> ()
+      | _ -> step i now; to_hold i now in
+    let rec to_done i now = match pc_of i with
+      | Breaker.PDone _ -> ()
+      | _ -> step i now; to_done i now in
+    let result i = match pc_of i with
+      | Breaker.PDone Breaker.Rejected -> rej ()
+      | Breaker.PDone (Breaker.Forwarded o) -> letter_of_outcome o
+      | _ -> "F" in
+    let out = Buffer.create 64 in
+    let rec go = function
+      | "s" :: o :: now :: r ->
+          cs := { !cs with Breaker.threads = (!cs).Breaker.threads @ [ { Breaker.tpc = Breaker.PStart; tout = outcome_of o } ] };
+          let i = !nthreads in incr nthreads;
+          to_hold i (z_of_string now); Buffer.add_string out (result i ^ " "); go r
+      | "r" :: i :: now :: r ->
+          let i = int_of_string i in
+          (match pc_of i with
+           | Breaker.PDone _ -> Buffer.add_string out "- "
+           | _ -> to_done i (z_of_string now); Buffer.add_string out (result i ^ " "));
+          go r
+      | "p" :: o :: now :: r ->
+          cs := { !cs with Breaker.threads = (!cs).Breaker.threads @ [ { Breaker.tpc = Breaker.PStart; tout = outcome_of o } ] };
+          let i = !nthreads in incr nthreads;
+          to_done i (z_of_string now); Buffer.add_string out (result i ^ " "); go r
+      | [] -> ()
+      | _ -> failwith "c20 script: bad token" in
+    go rest;
+    String.trim (Buffer.contents out)
+  | _ -> failwith "c20 script: bad header"
+
+let run_any line =
+  match split_ws line with
+  | "S" :: rest -> run_script rest
+  | _ -> run line
+
+let () = register "main" run_any
